@@ -1,7 +1,7 @@
 """
 C05 — `&del` formulas are LDL_f.
 
-proof          TelProofs.Props.C05 (del_unique under normal form, del_doc_eq, C05_value, runs_within)
+proof          TelProofs.Props.C05 (del_unique under normal form, del_doc_eq, C05_value, runs_within, normal_form_necessary)
 correspondence L3/L4 as for C03: the implementation's literal valuation solves the model's Diamond/Box equations
 search         witness atoms `w :- not not &del{f}` vs `telspec ldl` on every trace; normal-form generator
 """
@@ -35,6 +35,30 @@ def confusable_cases(seed, n):
             forms.reverse()
         out.append((forms, ATOMS))
     return out
+
+def nonnormal_cases(seed, n):
+    """outside the normal form (iteration over tests): the theorems make no claim about the value there
+    (`normal_form_necessary`), but the equations still transcribe the code, so the equation-level tie is checked there too"""
+    r = random.Random(seed)
+    A = lambda x: ("a", x)
+    out = [([("dia", ("star", ("test", A("a"))), A("b"))], ATOMS), ([("box", ("star", ("test", A("a"))), A("b"))], ATOMS)]
+    for _ in range(n):
+        out.append(([gen.gen_dform_any(r, r.randint(1, 2), ATOMS, pdepth=r.randint(1, 3))], ATOMS))
+    return out
+
+def excluded_point():
+    """The witness of `normal_form_necessary` on the real code: `<(a?)*> b` at horizon 1 on the trace {a},{} — the model's
+    equations have two solutions there; how many values the implementation shows is recorded (not judged: the property
+    quantifies over the normal form only)."""
+    A = lambda x: ("a", x)
+    text = oracles.witness_program([("dia", ("star", ("test", A("a"))), A("b"))], ATOMS, "del")
+    r = oracles.impl_models(text, 1)
+    if r[0] == "err":
+        return {"program": text, "outcome": "diagnostic: " + r[1]}
+    models = r[1]
+    vals = sorted({("w0@0" in m) for m in models.get(1, []) if set(x for x in m if not x.startswith("w0")) == {"a@0"}})
+    return {"program": text, "horizon": 1, "trace": "{a},{}", "values_of_formula_at_0": vals, "model_solutions": [False, True],
+            "agrees_with_model": vals == [False, True]}
 
 def corpus_cases():
     A = lambda x: ("a", x)
@@ -71,7 +95,8 @@ def _corr_chunk(args):
 def correspondence(ctx):
     n = 120 if ctx.tier == "quick" else 1200
     H = 3
-    cases = corpus_cases() + gen_cases(ctx.seed * 37 + 5, n, 2 if ctx.tier == "quick" else 3)
+    nn = nonnormal_cases(ctx.seed * 41 + 9, n // 3)
+    cases = corpus_cases() + gen_cases(ctx.seed * 37 + 5, n, 2 if ctx.tier == "quick" else 3) + nn
     work = [(ctx.seed + j, c, H) for j, c in enumerate(par.chunks(cases, ctx.jobs * 2))]
     tot = {"pairs": 0, "equations_evaluated": 0, "horizons": 0, "programs": 0}
     dis = []
@@ -89,6 +114,8 @@ def correspondence(ctx):
         for f in forms:
             count(f)
     tot["operator_histogram"] = ops
+    tot["programs_outside_normal_form"] = len(nn)
+    tot["excluded_point"] = excluded_point()
     tot["sample"] = {"program": oracles.witness_program(cases[-1][0], ATOMS, "del"), "horizon": H}
     return tot, dis
 
